@@ -13,6 +13,12 @@ CLAIMS = {
          "Trusted: Coq kernel; Gen/Tables.v reflection printer; Tag::from_wire being the inverse of wire_value is checked by a sweep over 32-bit words (2^24 per quick run, all 2^32 in thorough), not proved; hand-written model tied by correspondence."),
  "C06": ("Theorems for every byte string of any length: from_bytes never reaches a panic site of the model; values of an accepted message are exactly the bytes after the header; to_string returns normally for every message with recursion bounded by MAX_DISPLAY_DEPTH. Tied by differential execution including display under catch_unwind in a 2 MiB-stack thread.",
          "Trusted: Coq kernel; the model's panic sites are those of message.rs (hand-mapped; a removed guard shows up as impl-panics-where-model-errs); a real stack overflow can only be observed (process crash is reported), not proved absent."),
+ "C10": ("Theorems: SRV value and public key are functions of the seed alone; the delegation window contains every signable midpoint; the code's context strings equal the protocol texts' (re-proved against the regenerated table) and the two delegation contexts yield different signed strings. Certificates verifying under the long-term key for every responder and signer history is part of C02_honest_verifies + C13. Tied by LongTermKey::new vs one-shot dalek vs a pure-Python RFC 8032 transcription and hashlib, certificate sequences from one LongTermKey object, repeated in-process server starts.",
+         "Trusted: Coq kernel; Ed25519/SHA-512 abstract (the RFC 8032 equality is a correspondence observation, not a theorem); 'never verifies under the other context' needs a signature-binding idealisation and is observed, not proved. Restarts of the real multi-worker binary are covered by C15/C18 runs."),
+ "C11": ("Theorems for every clock reading (secs < 2^44, nanos < 10^9): classic MIDP = floor(ns/1000) and RADI = 5 000 000; IETF MIDP = secs and RADI = 5; true time in [MIDP, MIDP+1) units, hence within MIDP +/- RADI. Tied by make_srep at ~1000 clock values on both sides plus independent arithmetic, and by replies of a running in-process server bracketed by harness clock readings.",
+         "Trusted: Coq kernel; SystemTime::now() is the clock (observed by bracketing); u64 overflow of secs*10^6 beyond year 559 000 is excluded by the stated guard."),
+ "C14": ("PARTIAL. Theorems generic in AEAD and KMS provider: round trip for plaintexts >= 32 bytes and wrapped keys < 2^16 bytes; no panic for any blob and any provider answer; every accepted blob decomposes into validated lengths, a provider-unwrapped 32-byte key, a 12-byte nonce and an AEAD-opened ciphertext (nothing bypasses them); parse injectivity; data flow of the blob. Tamper rejection and non-leakage are cryptographic and are observed against real AES-256-GCM: every single-bit/byte modification at every position, every truncation, extensions, provider faults; substring scan for seed and DEK.",
+         "Trusted: Coq kernel; AES-256-GCM (ring) and the provider are abstract; tamper *rejection* and secrecy are properties of the primitives, measured not proved; a provider that itself panics is outside the claim (refutation theorem included)."),
  "C13": ("Theorems for every seed and every operation sequence on one signer object (any chunking, any number of messages): each signature is the one-shot signature of its own message's concatenated chunks, nothing carries over a sign(); the verifier's verdict is the direct verification and it panics exactly on a non-point key / non-64-byte signature. Tied to sign.rs by running operation sequences on the real MsgSigner/MsgVerifier; the byte strings the model says are signed are signed by one-shot ed25519-dalek and by a pure-Python RFC 8032 transcription and compared.",
          "Trusted: Coq kernel; Ed25519 itself is abstract in the theorems (any one-shot primitive); that dalek's one-shot API is RFC 8032 is cross-checked against the Python transcription on a sample, not proved."),
  "C17": ("Theorems for every event history, limit, split across workers and snapshot points: conservation (each event in its own counter or in the overflow count, exactly once), boundedness, per-client = aggregated totals without overflow, reporter merge preserves per-address sums. Tied to stats/*.rs by bounded-exhaustive and random operation sequences on the real recorders (hook: PerClientStats::with_limit, Reporter::merged_client_stats) and by in-process server traffic read back through Server::stats_recorder.",
